@@ -429,6 +429,8 @@ impl<'a> Lexer<'a> {
                                     if self.peek() == Some(&'-') {
                                         acc.push('-');
                                         self.next();
+                                    } else if self.peek() == Some(&'+') {
+                                        self.next();
                                     }
                                     while let Some(cc) = self.peek().filter(|d| d.is_digit(10)) {
                                         acc.push(*cc);
@@ -491,6 +493,8 @@ impl<'a> Lexer<'a> {
                                     self.next();
                                     if self.peek() == Some(&'-') {
                                         acc.push('-');
+                                        self.next();
+                                    } else if self.peek() == Some(&'+') {
                                         self.next();
                                     }
                                     while let Some(cc) = self.peek().filter(|d| d.is_digit(10)) {
